@@ -16,6 +16,8 @@ def variants(rng, name, orig, other):
         v["truncate"] = orig[:-1]
     if other is not None:
         v["other"] = other                      # another protected file's content (swap / rename among themselves)
+    if len(orig) > 16384:
+        v["fliplate"] = orig[:-1] + bytes([orig[-1] ^ 1])     # damage beyond the first 16 KiB, length unchanged: only the full hash sees it
     return v
 
 
@@ -58,12 +60,12 @@ def run(ctx):
                        lambda fs, dbl, ps=ps: L.line_repair("p2", "mem", ps.index, dbl, 1, fs),
                        {ps.paths[n]: ps.files[n] for n in names}, ps.created, ps.paths))
     # ---------------- PAR1: 3 files, 2 volumes ----------------
-    s1 = c04.Set1([("p.dat", L.gen_content(rng, "random", 7)), ("q.dat", L.gen_content(rng, "random", 10)), ("r", L.gen_content(rng, "random", 3))], 2)
+    s1 = c04.Set1([("p.dat", L.gen_content(rng, "random", 16384 + 130)), ("q.dat", L.gen_content(rng, "random", 10)), ("r", L.gen_content(rng, "random", 3))], 2)
     c04.create_all(ctx, vh, model, [s1], lambda *a, **k: None)
     if s1.created is not None:
         names = [n for n, _ in s1.files]
         datas = dict(s1.files)
-        var = {n: {k: v for k, v in variants(rng, n, datas[n], None).items() if k in ("orig", "absent", "flip", "truncate")} for n in names}
+        var = {n: {k: v for k, v in variants(rng, n, datas[n], None).items() if k in ("orig", "absent", "flip", "truncate", "fliplate")} for n in names}
         graphs.append(("par1", s1, names, var, s1.volumes, s1.index,
                        lambda fs, s=s1: P1.line_verify("mem", s.index, True, fs),
                        lambda fs, dbl, s=s1: P1.line_repair("mem", s.index, dbl, fs),
